@@ -9,6 +9,7 @@ oracle_c04 — line protocol (keys and values are naturals, sizes/capacities int
   `set k v sz` `sia k v sz` `sgr k v sz` `get k` `peek k` `exist k` `del k` `clear` `cap c` `keys` `items` `stats`
       single: `<result> | K=[k,…] I=[k:v:s,…] S=<len>,<size>,<cap>,<evictions>`
       wide (keyed ops only): `<result> | P=[k:v,…]`   (Peek of every key 0…U-1)
+  `fill a n sz`   (single cache)                 → as `set` of the last of the n keys a … a+n-1 (value key+1, size sz)
   `reset`                                        → `ok`        no cache (every op answers `bad-op`)
   `conc <seed> <threads> <ops>`                  → `inv-ok`    (parallel stress run in a child process: invariants at quiescence; ends the script)
 The configurations and the per-shard capacity kernel are the regenerated ones (`Nv.Gen.C04`).
@@ -101,7 +102,8 @@ def step (st : St) (line : String) : St × String :=
       if n = 0 ∨ ¬ inInt64 cap ∨ n > 4096 ∨ u > 64 then (st, "bad-op") else
       let route : Option Route := match rest with
         | ["mod"] => some (.mod n)
-        | ["tab", t] =>
+        | [tk, t] =>
+          if !(tk == "tab" || tk == "tabs") then none else
           match (t.splitOn ",").mapM parseNat? with
           | some tab => if tab.length = u ∧ tab.all (· < n) then some (.tab tab) else none
           | none => none
@@ -114,6 +116,14 @@ def step (st : St) (line : String) : St × String :=
     match st, parseNat? a, parseNat? b, parseNat? c with
     | .none, _, _, _ => (st, "bad-op")
     | _, some _, some t, some n => if t < 1 ∨ t > 16 ∨ n > 5000 then (st, "bad-op") else (.none, "inv-ok")
+    | _, _, _, _ => (st, "bad-op")
+  | ["fill", a, n, sz] =>
+    -- `fill a n sz`: Set(a+i, value a+i+1, size sz) for i = 0 … n-1 (builds long lists in one line); answer of the last Set
+    match st, parseNat? a, parseNat? n, parseI64? sz with
+    | .single kd s, some a, some n, some sz =>
+      if n = 0 ∨ n > 5000 ∨ a > 100000 then (st, "bad-op") else
+      let r := (List.range n).foldl (fun (acc : Lru × Out) i => Nv.C04.step (cfgOf kd) kd acc.1 (.set (a + i) (a + i + 1) sz)) (s, Out.unit)
+      (.single kd r.1, s!"{showOut r.2} | {snapshot r.1}")
     | _, _, _, _ => (st, "bad-op")
   | ws =>
     match parseOp ws with
